@@ -183,7 +183,7 @@ class P(b1.Plugin):
 
 def main(tier):
     t0 = time.time()
-    proof = common.proof_obligations("C04", modules=["EduceModel.Props.C04", "EduceModel.Props.E2E"])
+    proof = common.proof_obligations("C04", modules=["EduceModel.Props.C04", "EduceModel.Props.E2E", "EduceModel.Props.Profile"])
     n_defs, cap_vals, cap_pairs = (200, 6, 150) if tier == "quick" else (2000, 9, 500)
     tie = b1.run_b1("C04", P(cap_pairs), n_defs, cap_vals, common.seed())
     return common.finish("C04", tier, t0, proof, tie)
